@@ -60,7 +60,7 @@ def model_st(draw, d, multi=True, allow_ignore=True, options=False):
 
 @st.composite
 def loss_st(draw):
-    kind = draw(st.sampled_from(['sq', 'abs', 'poly', 'poly', 'lin']))
+    kind = draw(st.sampled_from(['sq', 'abs', 'poly', 'poly', 'lin', '01']))      # '01': a bool-valued zero-one loss
     c = [draw(st.integers(-3, 3)) for _ in range(4)]
     return {'kind': kind, 'c': c}
 
@@ -128,12 +128,19 @@ def config_st(draw, dmax=5, tmin=2, tmax=12, modes=('exact', 'float'), multi=Tru
         'mode': draw(st.sampled_from(modes)),
         'stream': draw(stream_st(dt, tmin, tmax, variants=variants)),
     }
+    if cfg['loss'].get('kind') == '01' and cfg['mode'] != 'exact':
+        # a discontinuous loss: the float twin of a model output may fall on the other side of the threshold, so only exact runs are compared
+        if 'exact' in modes:
+            cfg['mode'] = 'exact'
+        else:
+            cfg['loss']['kind'] = 'abs'
     if variants:
         # observations stored through the public update_storage() BEFORE the first explain_one (pre-filled / shared storage)
         cfg['prefill'] = draw(st.sampled_from([0, 0, 0, 1, 2]))
         if cfg['prefill'] and cfg['stream'] and draw(st.booleans()):
             cfg['stream'][0]['upd'] = False      # the storage is fed by hand / by someone else: even the first call does not store
         cfg['defaults_container'] = draw(st.sampled_from(['dict', 'dict', 'defaultdict', 'missing']))
+        cfg['observer'] = draw(st.integers(0, 4)) == 0      # a model callback that reads the explainer's estimates while it is being called
         cfg['omit_defaults'] = draw(st.booleans())     # arguments equal to their documented default are omitted instead of spelled out
         if draw(st.integers(0, 7)) == 0:
             cfg['alpha'] = draw(st.sampled_from(['1/10000000000', '1/1000000']))     # very small but legal smoothing parameter
@@ -245,13 +252,26 @@ class Harness:
             kw = {k: v for k, v in kw.items() if not (k in documented and type(v) is type(documented[k]) and v == documented[k])}
         return kw
 
+    def _watch(self, ex):
+        if self.cfg.get('observer'):
+            self.model.watched = ex        # the model callback reads ex.importance_values / ex.variances during every evaluation
+        return ex
+
     def pfi(self):
+        from ixai.explainer import IncrementalPFI
+        c = self.cfg
+        return self._watch(self._pfi())
+
+    def _pfi(self):
         from ixai.explainer import IncrementalPFI
         c = self.cfg
         return IncrementalPFI(self.model, self.loss, self.names_arg(), storage=self.storage, imputer=self.imputer, smoothing_alpha=self.alpha,
                               **self._kw(n_inner_samples=c['n_inner'], dynamic_setting=c['dynamic']))
 
     def sage(self):
+        return self._watch(self._sage())
+
+    def _sage(self):
         from ixai.explainer.sage import IncrementalSage
         c = self.cfg
         if c.get('library_defaults'):
